@@ -91,8 +91,22 @@ def run(chk, replay_case=None):
     # their oracle failures are expected; a predicate that is not listed suppresses nothing
     findings = vlib.known_findings("C06")
     listed = {f["pred"] for f in findings}
-    cases = [c for c in allcases if c.get("pred") not in listed or not c.get("pred")]
-    stream = [c for c in allcases if c.get("pred") and c.get("pred") in listed]
+    # the stream a case belongs to is decided by the MODEL's evaluation of the input predicates on the history
+    # (the harness evaluates the same predicates on the real run; a disagreement keeps the case in the clean stream)
+    drv_cases = [c for c in allcases if any(d.get("drv") for d in (c["hist"] or []))]
+    PRED = {0: None, 1: "fence.drivermode.decided-without-business", 2: "fence.drivermode.fault-at-commit"}
+    for i in range(0, len(drv_cases), 400):
+        part = drv_cases[i:i + 400]
+        out = vlib.coq_compute("C06", HEADER, ["case_preds %s" % coq_list([case_term(dict(c, obs=[], robs=[])) for c in part])])[0]
+        vals = [int(x.replace("%N", "")) for x in out.strip("[] ").split(";") if x.strip()]
+        if len(vals) != len(part):
+            raise vlib.Broken("cannot parse predicate evaluation: " + out[:200])
+        for c, v in zip(part, vals):
+            c["model_pred"] = PRED[v]
+    def in_stream(c):
+        return c.get("model_pred") in listed and c.get("model_pred") == c.get("pred")
+    cases = [c for c in allcases if not in_stream(c)]
+    stream = [c for c in allcases if in_stream(c)]
     for f in findings:
         rc = json.load(open(os.path.join(vlib.VERIF, f["replay"])))["case"]
         rp = chk.tmp("finding_%s.json" % f["id"])
